@@ -94,6 +94,11 @@ def gen_calls(rng, fns, per_fn):
                 ok_kind = bool(vbit(v) & p["kind"])
                 src = lit_src(v)
                 mode = "lit" if (src is not None and rng.random() < (0.45 if ok_kind else 0.1)) else "field"
+                if mode == "lit" and isinstance(v, dict) and "a" in v and len(v["a"]) < 100 and rng.random() < 0.35:
+                    # the same array with a non-constant, precisely typed shape: unknown length, element kind = union
+                    # of the element kinds (type_defs have separate branches for exact and for unknown-length arrays)
+                    mode = "typed"
+                    src = "values({%s})" % ", ".join('"k%02d": %s' % (i, lit_src(x)) for i, x in enumerate(v["a"]))
                 if mode == "field":
                     ev.append(("p%d" % pi, v))
                     src = ".p%d" % pi
